@@ -23,10 +23,11 @@
 EXTENDS MCProposalStream, Json
 
 CONSTANTS MaxSteps
-VARIABLES hist, steps, mq, draining
+VARIABLES hist, steps, mq, draining, mode
 
 R(S) == {RandomElement(S)}
-allvars == <<vars, hist, steps, mq, draining>>
+RS(S) == IF S = {} THEN {} ELSE {RandomElement(S)}
+allvars == <<vars, hist, steps, mq, draining, mode>>
 
 InternalEnabled ==
   \/ \E s \in Streams : st[s].run = "running" /\ st[s].inq # <<>>
@@ -65,6 +66,12 @@ Log(name, s, j) == hist' = Append(hist, [a |-> Lbl(name, s, j), pre |-> Proj])
 (* the lowest message of s not delivered yet (in-order delivery), or any *)
 Pending(s) == {j \in DOMAIN script[s] : sent[s][j] = 0}
 LowestPending(s) == IF Pending(s) = {} THEN {} ELSE {CHOOSE j \in Pending(s) : \A k \in Pending(s) : j <= k}
+HighestPending(s) == IF Pending(s) = {} THEN {} ELSE {CHOOSE j \in Pending(s) : \A k \in Pending(s) : j >= k}
+(* the delivery discipline of a behaviour: "fwd" mostly in script order, "rev" mostly in reverse order
+   (everything is buffered out of order, equal numbers meet in the buffer), "mix" both *)
+Ordered(s) == CASE mode = "rev" -> HighestPending(s)
+                [] mode = "mix" -> LowestPending(s) \cup HighestPending(s)
+                [] OTHER -> LowestPending(s)
 
 RecvAct(s, j) ==
   /\ j \in DOMAIN script[s] /\ sent[s][j] < MaxDup /\ (sent[s][j] = 0 \/ extra < MaxExtra)
@@ -75,28 +82,28 @@ RecvAct(s, j) ==
           /\ extra' = IF sent[s][j] = 0 THEN extra ELSE extra + 1
           /\ mq' = IF dmx = "blocked" THEN Append(mq, <<s, j>>) ELSE mq
           /\ UNCHANGED <<script, cur, st, out, got, dmx, blk>>
-  /\ Log("Recv", s, j) /\ UNCHANGED draining
+  /\ Log("Recv", s, j) /\ UNCHANGED <<draining, mode>>
 
 BlockedForEver == dmx = "blocked" /\ st[blk.s].run \notin {"running", "sending"}
 
 CommitAct ==
   /\ cur < MaxHeight
   /\ dmx = "ok" /\ Commit
-  /\ Log("Commit", 0, 0) /\ UNCHANGED <<mq, draining>>
+  /\ Log("Commit", 0, 0) /\ UNCHANGED <<mq, draining, mode>>
 
 DrainAct ==
   /\ draining' = TRUE
-  /\ Log("Drain", 0, 0) /\ UNCHANGED <<vars, mq>>
+  /\ Log("Drain", 0, 0) /\ UNCHANGED <<vars, mq, mode>>
 
 Harness ==
-  \/ \E s \in R(Streams) : \E j \in LowestPending(s) : RecvAct(s, j)
-  \/ \E s \in R(Streams) : \E j \in LowestPending(s) : RecvAct(s, j)
-  \/ \E s \in R(Streams) : \E j \in LowestPending(s) : RecvAct(s, j)
+  \/ \E s \in R(Streams) : \E j \in RS(Ordered(s)) : RecvAct(s, j)
+  \/ \E s \in R(Streams) : \E j \in RS(Ordered(s)) : RecvAct(s, j)
+  \/ \E s \in R(Streams) : \E j \in RS(Ordered(s)) : RecvAct(s, j)
   \/ \E s \in R(Streams) : \E j \in R(DOMAIN script[s]) : RecvAct(s, j)
   \/ \E s \in R(Streams) : \E j \in R(DOMAIN script[s]) : RecvAct(s, j)
   \/ \E s \in R(Streams) : \E j \in R(DOMAIN script[s]) : RecvAct(s, j)
-  \/ \E s \in R(Streams) : \E j \in LowestPending(s) : RecvAct(s, j)
-  \/ \E s \in R(Streams) : \E j \in LowestPending(s) : RecvAct(s, j)
+  \/ \E s \in R(Streams) : \E j \in RS(Ordered(s)) : RecvAct(s, j)
+  \/ \E s \in R(Streams) : \E j \in RS(Ordered(s)) : RecvAct(s, j)
   \/ \E s \in R(Streams) : \E j \in R(DOMAIN script[s]) : RecvAct(s, j)
   \/ CommitAct
   \/ DrainAct          \* always enabled (the random draws above may all miss)
@@ -109,7 +116,7 @@ MBTInit ==
   /\ extra = 0 /\ cur = InitHeight
   /\ st = [s \in Streams |-> Fresh] /\ out = <<>> /\ got = [s \in Streams |-> <<>>]
   /\ dmx = "ok" /\ blk = [s |-> CHOOSE s \in Streams : TRUE, m |-> NoMsg]
-  /\ hist = <<>> /\ steps = 0 /\ mq = <<>> /\ draining = FALSE
+  /\ hist = <<>> /\ steps = 0 /\ mq = <<>> /\ draining = FALSE /\ mode = "fwd"
 
 Emit ==
   /\ PrintT(ToJson([scripts |-> script, honest |-> [s \in Streams |-> HonestOf[script[s]]],
@@ -120,12 +127,12 @@ Emit ==
   /\ extra' = 0 /\ cur' = InitHeight
   /\ st' = [s \in Streams |-> Fresh] /\ out' = <<>> /\ got' = [s \in Streams |-> <<>>]
   /\ dmx' = "ok" /\ blk' = [s |-> CHOOSE s \in Streams : TRUE, m |-> NoMsg]
-  /\ hist' = <<>> /\ steps' = 0 /\ mq' = <<>> /\ draining' = FALSE
+  /\ hist' = <<>> /\ steps' = 0 /\ mq' = <<>> /\ draining' = FALSE /\ mode' = RandomElement({"fwd", "rev", "mix", "fwd2"})
 
 MBTNext ==
-  IF InternalEnabled THEN Internal /\ UNCHANGED <<hist, steps, draining>>
-  ELSE IF draining THEN (IF CanTake THEN Take /\ UNCHANGED <<hist, steps, draining>>
-                         ELSE draining' = FALSE /\ UNCHANGED <<vars, hist, steps, mq>>)
+  IF InternalEnabled THEN Internal /\ UNCHANGED <<hist, steps, draining, mode>>
+  ELSE IF draining THEN (IF CanTake THEN Take /\ UNCHANGED <<hist, steps, draining, mode>>
+                         ELSE draining' = FALSE /\ UNCHANGED <<vars, hist, steps, mq, mode>>)
   ELSE IF steps >= MaxSteps \/ ~ENABLED Harness THEN Emit
   ELSE Harness /\ steps' = steps + (IF dmx = "ok" THEN 1 ELSE 6)   \* a stopped demux: a few more acts, then the next behaviour
 =============================================================================
